@@ -208,7 +208,7 @@ def build(tier):
             'run time of the two-element interleaving scenario: 55-70 s CPU (cadical: 20 s for the canary model + 43 s for the final UNSAT call); tried without gain: minisat (8 + 53 s), --slice-formula (22 + 46 s), --no-sat-preprocessor (15 + 80 s), kissat as external solver (36 + 60 s), the UNSAT call alone without the canaries (75 s, so splitting the properties over processes does not help); the one-element scenario still takes ~30 s (constructor / shutdown interleavings dominate, not the tasks), so the cost sits in the lifecycle events of the partial-order encoding (mutex word 24 writes, deque size 14, running flags 14); it therefore runs in the thorough tier only (its 7 canary mutations carry "tier": "thorough")',
             'lost wake-ups / deadlock freedom: the bounded model lets wait(lock, pred) return whenever pred holds (notify_one / notify_all are no-ops), so a missing or misplaced notify is invisible; only "the final state is reachable under some schedule" is checked (nv_canary).  The stricter notification-counter model is sketched in conc.h (NV_STRICT_NOTIFY) but not run',
             'data races on plain members read outside the models (m_stop is read directly by the extracted code): no race detector is run (goto-instrument --race-check not tried); sequential consistency is assumed by the bounded check',
-            'data races on the operator\'s own state; exceptions thrown by the operator in the sequential branch',
+            'data races on the operator\'s own state; exceptions thrown by the operator in the sequential branch (observation, demonstrated natively: there an exception leaves map also with raise == false, so whether map(.., false) throws depends on the pool size: specs/C17/FINDING_seq_branch_raise.md)',
             'section_t::block written with an explicit iterator or index loop instead of the range-based for: the loop contract of section.h names the range-for\'s own variables (__range1 / __begin1 / __end1), such a rewrite ends undecided (exit 2), not refuted; a COPY of a vector of futures (std::vector<future_t> v(*this)) and try / catch inside block or map are not in the printer\'s / the model\'s vocabulary (undecided)',
             'that "this thread observed the task finished" implies the operator\'s effects are visible to the caller (happens-before through the shared state of std::future: assumed, C++ [futures.state])',
             'std::thread(std::cref(worker)) starts worker k on thread k (lambda inside std::transform: not extractable, dependent types)',
